@@ -33,7 +33,7 @@ class C11(P.Property):
     real_stub = dict(deployment="real client Service + real server + websockets on the simulated loop/TCP; disk seam observing; no kills (C13)")
     assumptions = ["one service per run; operations before any create use an unknown sid"]
     probe_names = ["key_regen_refused", "encrypt_again_refused", "upload_before_create_refused", "search_before_upload_refused",
-                   "invalid_config_refused", "create_again_refused", "create_from_stored_config_refused", "reached_uploaded", "scheme_refused_input", "op_on_unknown_sid"]
+                   "invalid_config_refused", "create_again_refused", "create_from_stored_config_refused", "reached_uploaded", "scheme_refused_input", "op_on_unknown_sid", "op_timed_out_under_stall"]
 
     def setup(self):
         world.setup_frontend()
@@ -65,7 +65,8 @@ class C11(P.Property):
                 st["w"] = rng.choice(list(db) + [hx(b"absent")])
             steps.append(st)
         knobs = dict(scheme=scheme, db=db, net=rng.choice([dict(lo=0.001, hi=0.05), dict(lo=0.001, hi=0.05, seg=3), dict(lo=0.01, hi=0.3, seg=2)]),
-                     skew=rng.choice([1.0, 1.0, 0.5, 2.0]), bufsize=rng.choice([8192, 8192, 16]))
+                     skew=rng.choice([1.0, 1.0, 0.5, 2.0]), bufsize=rng.choice([8192, 8192, 16]), gc_every=rng.choice([0, 0, 1, 2]),
+                     stall_step=(rng.randrange(len(steps)) if rng.random() < 0.12 else None))
         return {"property": "C11", "seed": seed, "knobs": knobs, "steps": steps}
 
     def execute(self, plan):
@@ -118,11 +119,13 @@ class C11(P.Property):
         unknown = "%064x" % core.h64(plan["seed"], "unknown-sid")
         sid = None
         F = dict(cc=False, cu=False, kc=False, de=False, du=False)
+        srv = 0  # the server's state for this service
         keybytes = None
 
         for si, st in enumerate(plan["steps"]):
             op = st["op"]
             cur = sid or unknown
+            run.maybe_gc(si)
             if sid is None and op not in ("create", "create_bad"):
                 probes["op_on_unknown_sid"] = 1
             before = fe.client_snapshot()
@@ -173,16 +176,48 @@ class C11(P.Property):
                     except Exception as e2:
                         if type(e2) is type(r[1]):
                             scheme_refusal = True
-            elif op == "upload_config":
-                r = await host.upload_config(cur)
-                exp = F["cc"] and not F["cu"]
-            elif op == "upload_index":
-                r = await host.upload_index(cur)
-                exp = F["cu"] and F["kc"] and F["de"] and not F["du"]
-            elif op == "search":
-                search_w = unhx(st.get("w", hx(b"absent")))
-                r = await host.search(cur, search_w)
-                exp = F["du"]
+            elif op in ("upload_config", "upload_index", "search"):
+                if sid is not None:
+                    # every network operation first connects and takes the two upload flags from the server's reported state
+                    F["cu"], F["du"] = srv >= 1, srv == 2
+                stalled = knobs.get("stall_step") == si and sid is not None
+                nst0 = run.sim.counters.get("stall", 0)
+                if stalled:
+                    # fault: the server's reply to this request is delayed beyond the client's 60 s patience
+                    run.sim.stall_once = ("s", 70, 2 + 2 * (knobs["net"].get("seg", 1) > 1))
+                if op == "upload_config":
+                    exp = F["cc"] and not F["cu"]
+                    r = await host.upload_config(cur)
+                elif op == "upload_index":
+                    exp = F["cu"] and F["kc"] and F["de"] and not F["du"]
+                    r = await host.upload_index(cur)
+                else:
+                    search_w = unhx(st.get("w", hx(b"absent")))
+                    exp = F["du"]
+                    r = await host.search(cur, search_w)
+                run.sim.stall_once = None
+                if stalled and run.sim.counters.get("stall", 0) > nst0 and r[0] == "exc":
+                    # the one relaxed case: the stalled operation may fail (time-out); whether the server applied it is read from the
+                    # server's disk, the client's flags are whatever it persisted (only the two upload flags may have moved)
+                    probes["op_timed_out_under_stall"] = 1
+                    await asyncio.sleep(30)
+                    srv = self._server_state(run, sid)
+                    after = fe.client_snapshot()
+                    m = after.get(sid + "/service_meta")
+                    if not (isinstance(m, tuple) and m[0] == "meta" and isinstance(m[1].get("state"), int)):
+                        viol.append(V("C11.flags", "STATE_MISMATCH", f"step {si}: after a timed-out {op} the client's state file is unusable: {m!r:.60}", site=op))
+                        return
+                    got = flags_of(m[1]["state"])
+                    if any(got[k] != F[k] for k in ("cc", "kc", "de")):
+                        viol.append(V("C11.flags", "STATE_MISMATCH", f"step {si}: a timed-out {op} changed flags other than the upload flags: {got} vs {F}", site=op))
+                        return
+                    F.update(cu=got["cu"], du=got["du"])
+                    out["obs"].append(("".join(k for k in ("cc", "kc", "de", "cu", "du") if F[k]) or "-", op, "timed-out"))
+                    if keybytes is not None and after.get(sid + "/key") != keybytes:
+                        viol.append(V("C11.key", "KEY_CHANGED", f"step {si}: the key file changed during {op}", site=op))
+                        return
+                    await asyncio.sleep(st.get("gap", 0))
+                    continue
             else:
                 continue
             if r[0] == "died":
@@ -223,6 +258,7 @@ class C11(P.Property):
                         viol.append(V("C11.order", "REFUSAL_MISMATCH", f"step {si}: {op} returned but the callback received {ack!r:.60}", site=op))
                         return
                     F["cu" if op == "upload_config" else "du"] = True
+                    srv = 1 if op == "upload_config" else 2
                 else:
                     box, s = r[1]
                     if not box:
@@ -243,7 +279,8 @@ class C11(P.Property):
                         "create_again": "create_again_refused", "create_stored": "create_from_stored_config_refused"}.get(op)
                 if name:
                     probes[name] = 1
-                if after != before:
+                metakey = (sid + "/service_meta") if sid else None  # its content is judged by the flags check below
+                if {k: v for k, v in after.items() if k != metakey} != {k: v for k, v in before.items() if k != metakey}:
                     diff = sorted(k for k in set(before) | set(after) if before.get(k) != after.get(k))
                     viol.append(V("C11.refusal", "STATE_MISMATCH", f"step {si}: refused {op} changed the client's files: {diff}", site=op))
                     return
@@ -273,6 +310,13 @@ class C11(P.Property):
                     return
         await asyncio.sleep(3)
 
+    def _server_state(self, run, sid):
+        try:
+            with open(run.sse_path(sid, "service_meta"), "rb") as f:
+                return pickle.load(f).get("state", 0)
+        except Exception:
+            return 0
+
     def _disk_config(self, run, sid):
         import json
         with open(run.sse_path("client", sid, "config.json")) as f:
@@ -280,7 +324,7 @@ class C11(P.Property):
 
     def simplifications(self, plan):
         k = plan["knobs"]
-        for key, val in (("skew", 1.0), ("bufsize", 8192), ("net", dict(lo=0.01, hi=0.01))):
+        for key, val in (("skew", 1.0), ("bufsize", 8192), ("net", dict(lo=0.01, hi=0.01)), ("gc_every", 0), ("stall_step", None)):
             if k.get(key) != val:
                 yield dict(plan, knobs=dict(k, **{key: val}))
         if k["scheme"] != "CJJ14.PiBas" and fe.id_size(fe.default_config(k["scheme"])[1]) == 8:
